@@ -300,6 +300,10 @@ def run_smt(ks, prior):
         out = guard(lambda: SparseMerkleTree(key_size=size))
         if bad is None and out != Exc(1):
             bad = f"SparseMerkleTree(key_size={size}) not refused with ValidationError"
+        # the other way to obtain a tree
+        out = guard(lambda: SparseMerkleTree.from_db(t.db, t.root_hash, key_size=size))
+        if bad is None and out != Exc(1):
+            bad = f"SparseMerkleTree.from_db(..., key_size={size}) not refused with ValidationError"
     return ops, outs, bad
 
 
